@@ -269,7 +269,7 @@ def different_value(rng, kind, old):
 
 MUTATIONS = ["identical", "name", "dests", "dests_reorder", "unit", "colname", "colorder", "cell", "dtype",
              "add_row", "del_row", "add_col", "del_col", "missing_flavour", "missing_dtype", "transposed", "origin",
-             "rowswap", "number_type_cell", "subclass", "index", "non_table"]
+             "rowswap", "number_type_cell", "subclass", "index", "non_table", "unit_swap"]
 
 
 def mutate(rng, spec, kind):
@@ -341,6 +341,15 @@ def mutate(rng, spec, kind):
                 return None, None
             c = rng.choice(num)
         c["unit"] = rng.choice([u for u in NUM_UNITS + ["football_fields"] if u != c["unit"]])
+        return s, False
+    if kind == "unit_swap":
+        # the same units on other columns: two numeric columns exchange their (different) units
+        num = [x for x in cols if x["kind"] in ("int", "float", "datetime", "Int64", "Float64")]
+        pairs = [(x, y) for x in num for y in num if x is not y and x["unit"] != y["unit"]]
+        if not pairs:
+            return None, None
+        x, y = rng.choice(pairs)
+        x["unit"], y["unit"] = y["unit"], x["unit"]
         return s, False
     if kind == "colname":
         c["name"] = rng.choice([x for x in COLNAMES + ["zz"] if x not in [k["name"] for k in cols]])
@@ -498,7 +507,7 @@ def cases(rng, tier, seed):
             m, exp = mutate(rng, base, kind)
             if m is None:
                 continue
-            yield {"seed": seed, "index": idx, "mutation": kind, "expected": exp, "a": base, "b": m}
+            yield {"seed": seed, "index": idx, "mutation": kind, "expected": exp, "a": copy.deepcopy(base), "b": m}
             idx += 1
         # unrelated pairs from a small space (so that equal ones occur) and from the full space
         yield {"seed": seed, "index": idx, "mutation": "random_small", "a": gen_spec(rng, True), "b": gen_spec(rng, True)}
@@ -512,9 +521,18 @@ def cases(rng, tier, seed):
             if m2 is not None:
                 yield {"seed": seed, "index": idx, "mutation": "index_both", "a": m, "b": m2}
                 idx += 1
+        # two columns with the same unit and values under different names, exchanged: differs in column order only
+        if len(base["cols"]) >= 2:
+            tw = copy.deepcopy(base)
+            i, j = rng.sample(range(len(tw["cols"])), 2)
+            tw["cols"][i] = dict(copy.deepcopy(tw["cols"][j]), name=tw["cols"][i]["name"])
+            sw = copy.deepcopy(tw)
+            sw["cols"][i], sw["cols"][j] = sw["cols"][j], sw["cols"][i]
+            yield {"seed": seed, "index": idx, "mutation": "colswap_twins", "expected": False, "a": tw, "b": sw}
+            idx += 1
         # subclass on the self side / on both sides
         sa = dict(copy.deepcopy(base), cls="Sub")
-        yield {"seed": seed, "index": idx, "mutation": "subclass_self", "a": sa, "b": base}
+        yield {"seed": seed, "index": idx, "mutation": "subclass_self", "a": sa, "b": copy.deepcopy(base)}
         idx += 1
         yield {"seed": seed, "index": idx, "mutation": "subclass_both", "a": sa, "b": copy.deepcopy(sa)}
         idx += 1
